@@ -103,7 +103,7 @@ def atom_of(v):
         return ('const', x[1])
     if k == 'op' and x[1] == 'not':
         return ('not', atom_of(x[2]))
-    if k == 'op' and x[1] in ('gt', 'lt', 'ne', 'eq') and len(x) == 4:
+    if k == 'op' and x[1] in ('gt', 'lt', 'ne', 'eq', 'ge', 'le') and len(x) == 4:
         a, b = strip_upd(x[2]), strip_upd(x[3])
         # coordinate comparison of the two event points
         def coord(y):
@@ -113,7 +113,7 @@ def atom_of(v):
                     return (ent(base[1]), y[2])
             return None
         ca, cb = coord(a), coord(b)
-        if ca and cb and ca[1] == cb[1] and x[1] in ('gt', 'lt'):
+        if ca and cb and ca[1] == cb[1]:
             return ('coordcmp', x[1], ca[0], cb[0], ca[1])
         # left flags
         from rules.tables import atom_name
@@ -186,7 +186,7 @@ def ev_atom(at, g, role):
         _, op, e1, e2, axis = at
         s = g.sx if axis == 'x' else g.sy
         d = 0 if r(e1) == r(e2) else (s if (r(e1), r(e2)) == ('a', 'b') else -s)
-        return d > 0 if op == 'gt' else d < 0
+        return {'gt': d > 0, 'lt': d < 0, 'ne': d != 0, 'eq': d == 0, 'ge': d >= 0, 'le': d <= 0}[op]
     if k == 'leftcmp':
         _, op, e1, e2 = at
         v = g.l[r(e1)] != g.l[r(e2)]
